@@ -9,6 +9,14 @@ def run(ctx):
     selfcheck(ctx)
     n = 3 if ctx.quick else 4
     tokenizer(ctx, n, ALL, f'full alphabet n={n}')
+    # strings by class (DESIGN 6, C01.a): every escape kind with free bytes in the escape, and free content bytes
+    Q, BS, ANY = [0x22], [0x5c], None
+    TERM = [0x20, 0x0a, ord(','), ord(']'), ord('}')]
+    multi = [(5, [Q, ANY, ANY, Q, TERM]), (5, [Q, BS, ANY, Q, TERM]), (9, [Q, BS, [ord('u')], ANY, ANY, ANY, ANY, Q, TERM]),
+             (7, [Q, ANY, BS, ANY, ANY, Q, TERM])]
+    if not ctx.quick:
+        multi += [(6, [Q, ANY, ANY, ANY, Q, TERM]), (10, [Q, ANY, BS, [ord('u')], ANY, ANY, ANY, ANY, Q, TERM]), (10, [Q, BS, [ord('u')], ANY, ANY, ANY, ANY, ANY, Q, TERM])]
+    tokenizer(ctx, None, ALL, 'string tokens by class: "cc", "\\c", "\\uHHHH" with every byte of c / H free, "c\\cc"', variants=('nocb',), partition=0, multi=multi)
     read_input(ctx, ['read.one_context_per_value'])
     from ..kani import kani_family
     ctx.run.bounds['from_f64'] = 'every finite f64 bit pattern'
